@@ -11,6 +11,7 @@ func init() {
 	vHarnesses["VerifC03ParseLine"] = VerifC03ParseLine
 	vHarnesses["VerifC07Expand"] = VerifC07Expand
 	vHarnesses["VerifC06ReplaceSuffixOne"] = VerifC06ReplaceSuffixOne
+	vHarnesses["VerifC07ExpandValue"] = VerifC07ExpandValue
 }
 
 // C03: the classification of a line does not depend on the order in which the directive patterns are tried
@@ -77,4 +78,29 @@ func VerifC06ReplaceSuffixOne() {
 		}
 	}
 	vAssert(out == want+"\n", "C06 only entries ending in old are rewritten; comments, directives and blank lines are untouched")
+}
+
+// C07: the VALUE of a definition is arbitrary text (regex metacharacters, `$`, backslashes, single braces): it is pasted
+// exactly as typed, directly and through a second definition, and an undefined reference stays literal. The value holds
+// no `{{` (the property excludes references that only come into existence through a substitution).
+func VerifC07ExpandValue() {
+	val := vNondetStrP("val", 6)
+	vAssume(len(val) > 0 && !strings.Contains(val, "{{") && !strings.Contains(val, " "))
+	shape := vParam("shape")
+	var defs map[string]string
+	var src, want string
+	switch shape {
+	case 0: // direct reference, twice, next to an undefined name
+		defs = map[string]string{"v": val}
+		src, want = "a{{v}}b{{w}}{{v}}", "a"+val+"b{{w}}"+val
+	case 1: // through a second definition
+		defs = map[string]string{"v": val, "u": "x{{v}}y"}
+		src, want = "{{u}}|{{v}}", "x"+val+"y|"+val
+	default: // value next to quantifier braces
+		defs = map[string]string{"v": val, "n": "3"}
+		src, want = "{{v}}{{{n}}}", val+"{3}"
+	}
+	out := expandDefinitions(bytes.NewBufferString(src), defs)
+	vReach("expanded")
+	vAssert(out.String() == want, "C07 a definition's value is pasted exactly as typed (pure textual substitution)")
 }
